@@ -2245,7 +2245,7 @@ func netRun(o *netOut, r *netRand, idx int, mode string) {
 	s.byzTime = r.Chance(1, 4)
 	s.mirror = r.Chance(1, 4)
 	s.deferOwn = r.Chance(1, 3)
-	s.byzQuiet = r.Chance(1, 3)
+	s.byzQuiet = r.Chance(2, 5)
 	nb := 0
 	for _, b := range s.byz {
 		nb += netB(b)
